@@ -797,3 +797,20 @@ def initialisers_complete(ctx, prog):
                     if not any(g.dominates(b, i) for b in inits.get(a[1], [])):
                         bad.append("score on %s at bb%d without a dominating init_from_partial" % (canon(a), i))
         ctx.ob(R2, "%s: every local position array that is scored against was initialised from a block hash first" % g.short, not bad and n >= 2, "; ".join(bad) or "%d scored arrays" % n, g.loc())
+
+    # the comparison target's own initialiser: view k of the target is built from block hash k of the hash (1 with 1, 2 with 2, each once)
+    ts = [g for g in prog.fns if g.path.endswith("compare::FuzzyHashCompareTarget::init_from_partial")]
+    for g in ts:
+        ctx.visit(g, weak=True)
+        gy = Sym(g)
+        pairs = []
+        for bi, t in g.calls():
+            if callee_of(t).endswith("::init_from_partial") and len(t["args"]) == 2:
+                a0 = canon(strip(gy.origin(strip(gy.operand(t["args"][0])))))
+                a1 = canon(strip(gy.origin(strip(gy.operand(t["args"][1])))))
+                m0 = re.search(r"block_hash_([12])_mut\(param:self\)$", a0)
+                m1 = re.search(r"::block_hash_([12])(::<[^()]*>)?\((core::convert::AsRef::as_ref\()?param:hash\)*$", a1)
+                pairs.append((m0.group(1) if m0 else a0[-40:], m1.group(1) if m1 else a1[-60:]))
+        ctx.ob(R2, "FuzzyHashCompareTarget::init_from_partial: position array k is built from block hash k of the given hash (k = 1, 2)",
+               sorted(pairs) == [("1", "1"), ("2", "2")], "pairs (target view, source block hash): %s" % sorted(pairs), g.loc())
+    ctx.floor(R2, len(ts), 1, "comparison target initialisers read")
